@@ -38,3 +38,81 @@ Example C06_example :
   let s := fst (run c (repeat 0 200) (init 2 [OSubmit 1; OSubmit 2; OCancel 2; OExit])) in
   futs s = [FRes 1; FCancelledN] /\ main s = MEnd.
 Proof. vm_compute. split; reflexivity. Qed.
+
+(* ---- the block executor with cache_directory (Model/CacheExec.v, Proofs/CacheCancel.v): the second
+   copy of the cancellation test, in _execute_task_with_cache ---- *)
+From EL Require Model.FileExec Model.CacheExec Proofs.CacheSafe Proofs.CacheCancel Model.StepExec Proofs.FileSafe Proofs.FileRefute.
+
+Theorem C06_cached_body_needs_running :
+  forall c n prog fs0 s t s' i,
+    wf_prog n prog -> CacheSafe.creach c (CacheExec.cinit n prog fs0) s ->
+    CacheExec.cstep c s t = Some (s', FileExec.FL (LBody i)) -> getf (CacheExec.cb s) i = FRunning.
+Proof. exact CacheCancel.cache_body_needs_running. Qed.
+Print Assumptions C06_cached_body_needs_running.
+
+(* once cancelled, never executed: the miss path and the hit path alike *)
+Theorem C06_cached_cancelled_never_executed :
+  forall c n prog fs0 s s' t u i,
+    wf_prog n prog -> CacheSafe.creach c (CacheExec.cinit n prog fs0) s ->
+    (getf (CacheExec.cb s) i = FCancelled \/ getf (CacheExec.cb s) i = FCancelledN) ->
+    CacheSafe.creach c s s' -> CacheExec.cstep c s' t = Some (u, FileExec.FL (LBody i)) -> False.
+Proof. exact CacheCancel.cache_cancelled_never_executed. Qed.
+Print Assumptions C06_cached_cancelled_never_executed.
+
+(* REFUTED on the cached path (finding D18): "cancelling a call neither delays, fails nor loses any
+   other call".  One worker, call 1 complete in the directory, the identical call 2 submitted and
+   cancelled while queued (cancel() returns True): the worker takes it, hits the cache, and
+   set_result on the cancelled future kills the worker thread (InvalidStateError); its process
+   stays alive and nothing but the client can move any more *)
+Theorem C06_refuted_cancelled_hit_kills_worker :
+  CacheSafe.creach CacheCancel.d18_cfg (CacheExec.cinit 2 CacheCancel.d18_prog []) CacheCancel.d18_state /\
+  getf (CacheExec.cb CacheCancel.d18_state) 2 = FCancelled /\
+  outs (CacheExec.cb CacheCancel.d18_state) = [XOk; XRes 1; XOk; XBool true] /\
+  exists s', CacheExec.cstep CacheCancel.d18_cfg CacheCancel.d18_state (TW 1) = Some (s', FileExec.FL (LSetRes 2 1)) /\
+    map wp (ws (CacheExec.cb s')) = [WDead] /\ palive (getp (CacheExec.cb s') 1) = true /\
+    CacheExec.cenabled CacheCancel.d18_cfg s' = [TM].
+Proof.
+  destruct CacheCancel.cancelled_hit_kills_worker as [_ [_ [_ [Hr [_ [Hf [Ho [s' [Hs [_ [Hw [Hp He]]]]]]]]]]]].
+  split; [exact Hr|]. split; [exact Hf|]. split; [exact Ho|]. exists s'. auto.
+Qed.
+Print Assumptions C06_refuted_cancelled_hit_kills_worker.
+
+(* ---- the file-based executor (Model/FileExec.v): the property quantifies over all executor modes
+   and is REFUTED there (findings D22, D26), witnesses by computation in Proofs/FileRefute.v ---- *)
+(* cancel() returns True for a call that is executed all the same *)
+Theorem C06_refuted_file_mode_cancel_true_yet_executed :
+  exists (sched : list tid) (s : FileExec.fstateX) (tr : list FileExec.flabel) (n1 n2 : nat),
+    FileRefute.ftrace FileRefute.rf_cfg sched FileRefute.ra_init = Some (s, tr) /\
+    FileSafe.freach FileRefute.rf_cfg FileRefute.ra_init s /\
+    n1 < n2 /\
+    nth_error tr n1 = Some (FileExec.FL (LCancel 1)) /\       (* cancel() on a pending future ... *)
+    nth_error tr n2 = Some (FileExec.FL (LBody 1)) /\         (* ... and later the function runs *)
+    outs (FileExec.fbase s) = [XOk; XBool true].              (* cancel() had returned True *)
+Proof. exact FileRefute.file_cancel_true_yet_executed_run. Qed.
+Print Assumptions C06_refuted_file_mode_cancel_true_yet_executed.
+
+(* a cancel() between the loop's done() test and set_result() kills the loop thread *)
+Theorem C06_refuted_file_mode_cancel_kills_loop :
+  FileExec.fpc FileRefute.rb_s0 = FileExec.GSetRes FileRefute.k1 1 [] [] /\
+  FileExec.fstep FileRefute.rf_cfg FileRefute.rb_s0 TM = Some (FileRefute.rb_s1, FileExec.FL (LCancel 1)) /\
+  outs (FileExec.fbase FileRefute.rb_s1) = [XOk; XBool true] /\
+  FileExec.fstep FileRefute.rf_cfg FileRefute.rb_s1 TD = Some (FileRefute.rb_s2, FileExec.FL (LSetRes 1 1)) /\
+  FileExec.fpc FileRefute.rb_s2 = FileExec.GDead /\
+  FileSafe.freach FileRefute.rf_cfg FileRefute.ra_init FileRefute.rb_s2.
+Proof.
+  pose proof FileRefute.file_cancel_kills_loop as H. decompose [and] H. repeat split; assumption.
+Qed.
+Print Assumptions C06_refuted_file_mode_cancel_kills_loop.
+
+(* shutdown(cancel_futures=True) terminates a call that has already started; its future is
+   pending in a state in which nothing can move any more *)
+Theorem C06_refuted_file_mode_shutdown_terminates_started_call :
+  nth_error (FileRefute.trace_or FileRefute.rf_cfg FileRefute.rc_pre FileRefute.rc_init) 21 = Some (FileExec.FL (LBody 1)) /\
+  main (FileExec.fbase FileRefute.rc_s4) = MEnd /\
+  getf (FileExec.fbase FileRefute.rc_s4) 1 = FPending /\
+  FileExec.fenabled FileRefute.rf_cfg FileRefute.rc_s4 = [] /\
+  FileSafe.freach FileRefute.rf_cfg FileRefute.rc_init FileRefute.rc_s4.
+Proof.
+  pose proof FileRefute.file_shutdown_terminates_started_call as H. decompose [and] H. repeat split; assumption.
+Qed.
+Print Assumptions C06_refuted_file_mode_shutdown_terminates_started_call.
